@@ -754,6 +754,60 @@ def check_unchecked_bounds(ctx, cfg, it):
     return n
 
 
+PLUMBING_FNS = ("core::ops::Deref::deref", "core::ops::DerefMut::deref_mut", "core::slice::<impl [T]>::get_unchecked", "core::slice::<impl [T]>::get_unchecked_mut",
+                "core::ops::Index::index", "core::ops::IndexMut::index_mut", "core::slice::<impl [T]>::as_ptr", "core::slice::<impl [T]>::as_mut_ptr",
+                "core::ptr::read", "core::ptr::write", "core::ptr::drop_in_place", "core::mem::forget", "core::mem::ManuallyDrop::<T>::new")
+
+
+def check_live_range(ctx, cfg, it, rule="C06.K"):
+    """Live-range discipline: slots outside [index, index_back) have been moved out or destroyed. In every method of the iterator, a view of its
+    storage that is handed to code which reads elements (an iterator constructor, Clone::clone, a fold, anything foreign) must lie inside the live
+    range; a whole-array view is only acceptable where index == 0 and index_back == N are known."""
+    from ..rules import is_view
+    from ..absint import State
+    n = 0
+    for b, byval in iter_entry_points(ctx, cfg, it):
+        if b.get("impl_trait") == "core::ops::Drop":
+            continue
+        _, an = analyse(ctx, cfg, b["key"], it, byval)
+        N, S = NS(an)
+        selfb = ("local", 1) if byval else ("arg", 1)
+        bad = []
+        k = 0
+        for c in an.calls:
+            if c.fn in PLUMBING_FNS or is_view(c) or c.fn.startswith(("core::ptr::const_ptr::", "core::ptr::mut_ptr::", "core::slice::from_raw_parts", "core::ptr::slice_from_raw_parts")):
+                continue
+            for v, op_ in zip(c.args, c.term["args"]):
+                if not (v[0] == "P" and isinstance(v[1], tuple) and v[1][0] == "field" and v[1][1] == selfb and v[1][2] == (it.ia,)):
+                    continue
+                if any(isinstance(x, tuple) and x and x[0] == "elemoff" for x in v[2].atoms()):
+                    continue  # an element yielded by a slice iterator over the storage: the iterator's own range was judged where it was created
+                k += 1
+                st = State(c.mem, c.facts)
+                lo = an.read_cell(st, selfb, (it.i0,), {"k": "prim", "n": "usize"})
+                hi = an.read_cell(st, selfb, (it.i1,), {"k": "prim", "n": "usize"})
+                if lo[0] != "I" or hi[0] != "I":
+                    bad.append("%s: live range unknown" % c.fn.split("::")[-1])
+                    continue
+                pf = an.poly_facts(c.facts)
+                # extent of what the callee may read: the slice length, else the pointee type of the argument
+                from ..tys import pointee as _pointee
+                pt_ = _pointee(an.operand_ty(op_)) if an.operand_ty(op_) is not None else None
+                if v[3] is not None:
+                    ext = v[3] * S
+                elif pt_ is not None and pt_.get("k") != "slice" and an.tenv.size(pt_) is not None:
+                    ext = an.tenv.size(pt_)
+                else:
+                    ext = N * S
+                inside = prove((">=", v[2] - lo[1] * S), pf) and prove((">=", hi[1] * S - v[2] - ext), pf)
+                if not inside:
+                    bad.append("%s receives bytes [%r, +%r) of the storage while the live range is [%r, %r)" % (c.fn.split("::")[-1], v[2], ext, lo[1], hi[1]))
+        ctx.ob(rule, b["key"], not bad, ("%d view(s) of the storage handed to element-reading code, each inside [index, index_back)" % k) if not bad else
+               "storage outside the live range (moved-out or destroyed slots) is handed to code that reads elements: " + "; ".join(sorted(set(bad))), at=b["at"], cfg=cfg)
+        n += 1
+    return n
+
+
 def check(ctx):
     ctx.explanation = EXPLANATION
     ctx.trusted = ["core::slice::Iter fold/rfold traverse ascending/descending; Zip pairs items in order", "rustc MIR construction"]
@@ -771,6 +825,7 @@ def check(ctx):
         check_folds(ctx, cfg, it, "fold")
         check_folds(ctx, cfg, it, "rfold")
         check_clone(ctx, cfg, it)
+        check_live_range(ctx, cfg, it)
         n = check_unchecked_bounds(ctx, cfg, it)
         ctx.floor("C06.U", "unchecked accesses to the iterator's storage (%s)" % cfg, n, 4)
         # FusedIterator / ExactSizeIterator are claimed by impls: they must exist for the checks above to matter
